@@ -279,3 +279,331 @@ def gen_history(rng, hid, tier, n_ops=None, style=None):
     return {"op": "c07.history", "id": hid, "doms": [d.text() for d in doms], "probs": [p[0] for p in probs],
             "ma": ma, "ops": ops, "style": style,
             "_shape": {"doms": doms, "probs": probs}}
+
+
+# ------------------------------------------------------------------------------------------ model literals
+def c_owner(name):
+    if name == "M":
+        return "OMod"
+    return {"D": "(ODom %s)", "S": "(OSt %s)", "O": "(OOp %s)"}[name[0]] % name[1:]
+
+
+def c_shape(act, args, keys):
+    def key(f):
+        k = act.ground_key(f, args)
+        return keys.setdefault(k, len(keys))
+    n_pre = len(act.pre_leaves) + sum(len(g["ante"]) for g in act.groups)
+    effs = ["(%d, %d)" % (key(t), len(le)) for g in act.groups for (t, le) in g["effs"]]
+    return "{| a_pre := %d; a_effs := %s; a_forall := %d |}" % (n_pre, clist(effs), act.n_forall)
+
+
+def c_op(step, job, keys):
+    """the model operation for one executed step"""
+    if step.get("skipped"):
+        return "ONop"
+    op, res = step["op"], step["res"]
+    k = op["k"]
+    shape = job["_shape"]
+    failed = "raised" in res
+    if k == "parse_domain":
+        if failed:
+            return "ONop"
+        d = shape["doms"][op["src"]]
+        return "(OParseDomain %s %d)" % (cbool(d.typed), len(d.actions))
+    if k == "new_domain":
+        return "ONop" if failed else "ONewDomain"
+    if k == "combine":
+        return "ONop" if failed else "(OCombine %d)" % (len(job["ma"][op["src"]]) + (2 if op.get("dummy") else 0))
+    if k == "parse_problem":
+        if failed:
+            return "ONop"
+        ks = [keys.setdefault(x, len(keys)) for x in shape["probs"][op["src"]][1]]
+        return "(OParseProblem %d %s)" % (op["dom"], clist(str(x) for x in ks))
+    if k == "mk_op":
+        if failed:
+            return "ONop"
+        act = shape["doms"][0].actions[op["ai"]]
+        objs = "None" if op.get("objs") is None else "(Some %d)" % op["objs"]
+        return "(OMkOp %d %d %s %s)" % (op["dom"], op["ai"], objs, c_shape(act, op["args"], keys))
+    if k == "ground":
+        return "ONop" if failed else "(OGround %d)" % op["op"]
+    if k == "applicable":
+        return "ONop" if failed else "(OApplicable %d %d)" % (op["op"], op["st"])
+    if k == "apply":
+        if failed and res["raised"] != "ValueError":
+            return "ONop"
+        return "(OApply %d %d %s %s)" % (op["op"], op["st"], cbool(op.get("skip")), cbool(failed))
+    if k == "copy":
+        return "ONop" if failed else "(OCopy %d)" % op["st"]
+    if k in ("serialize", "typed_serialize", "state_objects"):
+        return "(OReadState %d)" % op["st"]
+    if k in ("export", "str_action"):
+        return "(OReadDomain %d)" % op["dom"]
+    if k == "str_op":
+        return "(OReadOp %d)" % op["op"]
+    if k == "triplet":
+        if failed:
+            return "ONop"
+        act = shape["doms"][0].actions[op["ai"]]
+        return "(OTriplet %d %d %d %d %s %s)" % (op["dom"], op["ai"], op["st"], op["objs"],
+                                                  c_shape(act, op["args"], keys), cbool(res.get("refused")))
+    raise ValueError(k)
+
+
+def c_cfg(cfg):
+    return "{| fix15 := %s; fix16 := %s; fix17 := %s; fix18 := %s |}" % tuple(cbool(cfg[d]) for d in DEFECTS)
+
+
+def history_case(job, res, cfg):
+    keys = {}
+    steps = []
+    for st in res["steps"]:
+        changed = st.get("changed", [])
+        sharing = st.get("sharing")
+        if sharing is None:       # skipped step: the sharing graph is that of the previous step
+            sharing = prev_sharing(res["steps"], st)
+        steps.append("{| so_op := %s; so_changed := %s; so_sharing := %s |}" % (
+            c_op(st, job, keys), clist(c_owner(n) for n in changed),
+            clist("(%s, %s)" % (c_owner(a), c_owner(b)) for a, b, _ in sharing)))
+    repeat_ok = not res["repeat_mismatch"] and not res["repeat_changed"] and not res["module_leak"]
+    return "{| c_cfg := %s; c_steps := %s; c_repeat_ok := %s; c_thread := None |}" % (
+        c_cfg(cfg), clist(steps), cbool(repeat_ok))
+
+
+def prev_sharing(steps, st):
+    last = []
+    for s in steps:
+        if s is st:
+            return last
+        if "sharing" in s:
+            last = s["sharing"]
+    return last
+
+
+def thread_case(res, cfg):
+    ok = (res.get("n_diffs") == 0 and res.get("n_foreign") == 0 and res.get("domain_changed_rounds") == 0
+          and not res.get("module_leak"))
+    return "{| c_cfg := %s; c_steps := []; c_repeat_ok := true; c_thread := Some %s |}" % (c_cfg(cfg), cbool(ok))
+
+
+# ------------------------------------------------------------------------------------------ thread jobs
+def gen_thread_job(rng, tid, tier):
+    """N histories over ONE shared domain; each thread has its own problem, operators and states"""
+    main = GenDomain(rng, "d0", typed=True, n_actions=rng.randint(1, 3))
+    while not any(a.n_forall for a in main.actions) and rng.random() < 0.8:
+        main = GenDomain(rng, "d0", typed=True, n_actions=rng.randint(1, 3))
+    n = rng.randint(2, 4)
+    probs = [gen_problem(rng, main, "pr%d" % j) for j in range(n)]
+    threads = []
+    for t in range(n):
+        ops = [{"k": "parse_problem", "src": t, "dom": 0}]
+        for _ in range(rng.randint(6, 14) if tier == "quick" else rng.randint(10, 24)):
+            r = rng.random()
+            a = rng.randrange(len(main.actions))
+            act = main.actions[a]
+            args = [rng.choice(OBJS[ty]) for _, ty in act.params]
+            if r < 0.25 or len(ops) == 1:
+                ops.append({"k": "mk_op", "dom": 0, "act": act.name, "ai": a, "args": args, "objs": 0})
+            elif r < 0.6:
+                ops.append({"k": "apply", "op": rng.randrange(8), "st": rng.randrange(16),
+                            "allow": rng.random() < 0.6, "skip": rng.random() < 0.3})
+            elif r < 0.7:
+                ops.append({"k": "triplet", "dom": 0, "st": rng.randrange(16), "objs": 0, "ai": a, "args": args,
+                            "call": "(%s %s)" % (act.name, " ".join(args)), "allow": rng.random() < 0.5})
+            elif r < 0.8:
+                ops.append({"k": "str_action", "dom": 0, "act": act.name, "ai": a})
+            elif r < 0.88:
+                ops.append({"k": "export", "dom": 0})
+            elif r < 0.94:
+                ops.append({"k": "str_op", "op": rng.randrange(8)})
+            else:
+                ops.append({"k": "applicable", "op": rng.randrange(8), "st": rng.randrange(16)})
+        threads.append(ops)
+    return {"op": "c07.threads", "id": tid, "doms": [main.text()], "probs": [p[0] for p in probs], "ma": [],
+            "threads": threads, "rounds": 3 if tier == "quick" else 8}
+
+
+# ------------------------------------------------------------------------------------------ shrinking
+def public(job):
+    return {k: v for k, v in job.items() if k != "_shape"}
+
+
+def dirty(res):
+    """the oracle's verdict on one history result (independent of the model)"""
+    if "steps" not in res:
+        return True
+    if res["repeat_mismatch"] or res["repeat_changed"] or res["module_leak"]:
+        return True
+    for st in res["steps"]:
+        if st.get("changed"):
+            return True
+        for a, b, _ in st.get("sharing", []):
+            if a[0] != "O" and b[0] != "O":
+                return True
+    return False
+
+
+def shrink(job, still_bad, budget=40):
+    """delta-debugging on the op sequence: drop ops while the oracle still reports the violation"""
+    ops = list(job["ops"])
+    i = len(ops) - 1
+    while i >= 0 and budget > 0:
+        cand = ops[:i] + ops[i + 1:]
+        budget -= 1
+        r = run_impl([dict(public(job), ops=cand)], nproc=1)[0]
+        if still_bad(r):
+            ops = cand
+        i -= 1
+    return dict(job, ops=ops)
+
+
+# ------------------------------------------------------------------------------------------ the check
+def witness_jobs():
+    """the recorded witnesses of D15-D18 (findings.d/C07.json), as histories"""
+    dom = ("(define (domain d0)\n(:requirements :typing :fluents :conditional-effects)\n(:types a b - object)\n"
+           "(:predicates (p ?x - a) (q ?y - b) (r ?x - a ?y - b) (z))\n(:functions (f ?x - a) (g ?y - b) (h))\n"
+           "(:action act0\n  :parameters (?x - a)\n  :precondition (and (p ?x) (>= (f ?x) 0))\n"
+           "  :effect (and (z) (increase (f ?x) 1) (forall (?v0 - b) (when (q ?v0) (and (not (q ?v0)))))))\n)")
+    prob = ("(define (problem pr0) (:domain d0)\n(:objects b1 b2 - b a1 a2 - a)\n"
+            "(:init (p a1) (q b1) (q b2) (= (f a1) 0) (= (f a2) 5) (= (h) 0))\n(:goal (and (z))))")
+
+    class A:
+        name, params, pre_leaves, n_forall = "act0", [("?x", "a")], [("f", ["?x"])], 1
+        groups = [{"ante": [], "effs": [(("f", ["?x"]), [])]}]
+        ground_key = GenAction.ground_key
+
+    class D:
+        typed, actions = True, [A()]
+    keys = ["(f a1)", "(f a2)", "(h)"]
+    shape = {"doms": [D()], "probs": [(prob, keys, [])]}
+    base = [{"k": "parse_domain", "src": 0}, {"k": "parse_problem", "src": 0, "dom": 0},
+            {"k": "mk_op", "dom": 0, "act": "act0", "ai": 0, "args": ["a1"], "objs": 0}]
+    ag = [gen_agent_domain(random.Random(0), 0, True)]
+    mk = lambda wid, ops: {"op": "c07.history", "id": wid, "doms": [dom], "probs": [prob], "ma": [ag], "ops": ops,
+                           "style": "witness", "witness": wid, "_shape": shape}
+    return [
+        mk("D15", base + [{"k": "apply", "op": 0, "st": 0, "allow": False, "skip": False}, {"k": "str_action", "dom": 0, "act": "act0", "ai": 0}]),
+        mk("D16", base + [{"k": "apply", "op": 0, "st": 0, "allow": False, "skip": False}, {"k": "apply", "op": 0, "st": 1, "allow": False, "skip": False}]),
+        mk("D17", base[:2] + [{"k": "triplet", "dom": 0, "st": 0, "objs": 0, "ai": 0, "args": ["a2"], "call": "(act0 a2)", "allow": False}]),
+        mk("D18", [{"k": "new_domain"}, {"k": "combine", "src": 0, "dummy": False}, {"k": "new_domain"}]),
+    ]
+
+
+def run(args):
+    rep = Report(PROP, args.tier, args.seed)
+    standard_proof_part(rep, PROP)
+    rng = random.Random(args.seed * 104729 + 7)
+    findings = {f["id"]: f for f in load_findings(PROP)}
+    # a repair that is recorded as fixed is part of the model's configuration; an open finding is reproduced by it
+    cfg = {d: findings.get(d, {}).get("status") != "open" for d in DEFECTS}
+    if args.replay:
+        data = json.load(open(args.replay))
+        jobs = [data["input"]["job"]]
+        for j in jobs:
+            j["_shape"] = None
+        # a replay re-executes the history on the current tree and applies the oracle directly
+        res = run_impl([public(j) for j in jobs], nproc=1)
+        bad = [r for r in res if ("steps" in r and dirty(r)) or ("n_diffs" in r and (r["n_diffs"] or r["n_foreign"] or r["domain_changed_rounds"]))]
+        rep.coverage.update({"evaluations": len(jobs), "distinct_nontrivial": len(jobs), "samples": [public(jobs[0])],
+                             "rule": "replay of one recorded history; oracle only (digests, sharing, repeats)",
+                             "replay_result": res})
+        open_ids = [d for d in DEFECTS if not cfg[d]]
+        for r in bad:
+            only_known = open_ids == ["D17"] and "steps" in r and not any(s.get("changed") for s in r["steps"]) \
+                and not r["repeat_mismatch"] and not r["repeat_changed"] and not r["module_leak"] \
+                and any(s["op"]["k"] == "triplet" and s["res"].get("refused") for s in r["steps"] if not s.get("skipped"))
+            if only_known:
+                rep.known("D17: %s" % findings["D17"].get("what", ""))
+            else:
+                rep.violation(write_replay(PROP, "replay_again", {"kind": "input", "input": {"job": public(jobs[0])}, "result": r}), True)
+        return rep.finish()
+
+    n_hist = 220 if args.tier == "quick" else 1800
+    n_thr = 10 if args.tier == "quick" else 60
+    jobs = witness_jobs()
+    for i in range(n_hist):
+        jobs.append(gen_history(rng, i, args.tier))
+    hashseeds = [args.seed % 1000] if args.tier == "quick" else [args.seed % 1000, 1 + args.seed % 1000, 2 + args.seed % 1000]
+    results = [None] * len(jobs)
+    for k, hs in enumerate(hashseeds):
+        idx = [i for i in range(len(jobs)) if i % len(hashseeds) == k or jobs[i].get("witness")]
+        out = run_impl([public(jobs[i]) for i in idx], hashseed=hs)
+        for i, r in zip(idx, out):
+            results[i] = r
+    tjobs = [gen_thread_job(rng, i, args.tier) for i in range(n_thr)]
+    tres = run_impl(tjobs, hashseed=hashseeds[0], nproc=min(8, len(tjobs)))
+
+    cases, kinds, nsteps, raised, refused = [], {}, {}, 0, 0
+    for job, res in zip(jobs, results):
+        if "steps" not in res:
+            p = write_replay(PROP, "driver_failed_%s" % job["id"], {"kind": "correspondence", "why": "history driver failed", "input": {"job": public(job)}, "result": res})
+            rep.violation(p, False)
+            continue
+        if dirty(res) and not job.get("witness") and args.tier == "quick":
+            pass
+        lit = history_case(job, res, cfg)
+        executed = [s for s in res["steps"] if not s.get("skipped")]
+        for s in executed:
+            kinds[s["op"]["k"]] = kinds.get(s["op"]["k"], 0) + 1
+            raised += 1 if "raised" in s["res"] else 0
+            refused += 1 if s["res"].get("refused") else 0
+        nsteps[len(executed)] = nsteps.get(len(executed), 0) + 1
+        has_ref = any(s["res"].get("refused") for s in executed)
+        n_state_ops = sum(1 for s in executed if s["op"]["k"] in ("apply", "triplet", "combine", "copy"))
+        cases.append({"lit": lit,
+                      "input": {"job": public(job), "resolved": [s.get("op") for s in res["steps"]],
+                                "observed": {"changed": [[i, s["changed"]] for i, s in enumerate(res["steps"]) if s.get("changed")],
+                                             "value_sharing": sorted({(a, b) for s in res["steps"] for a, b, _ in s.get("sharing", []) if a[0] != "O" and b[0] != "O"}),
+                                             "repeat_mismatch": res["repeat_mismatch"], "repeat_changed": res["repeat_changed"],
+                                             "module_leak": res["module_leak"]}},
+                      "nontrivial": len(executed) >= 3 and n_state_ops >= 1,
+                      "witness_of": job.get("witness") if (job.get("witness") and not cfg.get(job.get("witness"), True)) else None,
+                      "klass": "D17" if has_ref else None, "_job": job, "_res": res})
+    for job, res in zip(tjobs, tres):
+        if "n_diffs" not in res:
+            p = write_replay(PROP, "thread_driver_failed_%s" % job["id"], {"kind": "correspondence", "why": "thread driver failed", "input": {"job": job}, "result": res})
+            rep.violation(p, False)
+            continue
+        cases.append({"lit": thread_case(res, cfg), "input": {"job": job, "observed": res}, "nontrivial": True,
+                      "witness_of": None, "klass": None})
+    verdicts, info = run_case_shards(PROP, "Corr.C07", [c["lit"] for c in cases], shard_size=40, max_bytes=100_000, run_fn="Verif.Corr.C07.run",
+                                     header_extra="From Verif Require Import Model.Store.\n")
+    # shrink failing histories (oracle-dirty outside the known class) before they are written as replays
+    n_shrunk = 0
+    for i, (c, ch) in enumerate(zip(cases, verdicts)):
+        if ch in "oA" and "_job" in c and len(c["_job"]["ops"]) > 3 and n_shrunk < 3:
+            n_shrunk += 1
+            small = shrink(c["_job"], dirty)
+            c["input"]["job"] = public(small)
+            c["input"]["shrunk_from_ops"] = len(c["_job"]["ops"])
+    for c in cases:
+        c.pop("_job", None)
+        c.pop("_res", None)
+    decide(rep, PROP, "Corr.C07", cases, verdicts, info, explain_expr="explain %s",
+           header_extra="From Verif Require Import Model.Store.\n")
+    cov = rep.coverage
+    cov["configuration"] = {d: ("repaired" if cfg[d] else "open finding, reproduced by the model") for d in DEFECTS}
+    cov["input_distribution"] = {"histories": len(jobs), "thread_jobs": len(tjobs), "ops_by_kind": kinds,
+                                 "history_length_executed": {str(k): v for k, v in sorted(nsteps.items())},
+                                 "calls_raised": raised, "steps_refused": refused,
+                                 "styles": {s: sum(1 for j in jobs if j.get("style") == s) for s in ("sim", "domains", "mixed", "witness")},
+                                 "thread_counts": {str(n): sum(1 for j in tjobs if len(j["threads"]) == n) for n in (2, 3, 4)},
+                                 "thread_rounds": sum(j["rounds"] for j in tjobs),
+                                 "thread_steps": sum(sum(r.get("steps", [])) for r in tres if isinstance(r, dict)),
+                                 "python_hash_seeds": hashseeds}
+    cov["exhaustive"] = False
+    cov["rule"] = ("histories of 3-12 API calls (parse domain/problem, Operator, ground, is_applicable, apply x 4 flag combinations, "
+                   "re-apply to earlier/later states, State.copy, serialize, str, export, create_single_triplet, Domain(), combine agent "
+                   "domains) over generated typed/untyped domains with numeric fluents, conditional and forall effects; after every call "
+                   "digests of DEFAULT_TYPES, all domains and ALL live states are compared (oracle), the sharing graph is compared with the "
+                   "model's, every query is repeated at the end; plus N=2-4 real threads on one shared domain (switch interval 1e-6) compared "
+                   "with sequential runs.  Non-trivial: >= 3 executed calls including a transition/combine/copy; distinct by hash of the job.")
+    cov["samples"] = [{"ops": c["input"].get("resolved"), "observed": c["input"].get("observed")} for c in cases[4:7]] + \
+                     [{"threads": [len(t) for t in c["input"]["job"]["threads"]], "observed": c["input"]["observed"]} for c in cases[-1:]]
+    cov["explanation"] = ("theorems C07_* (Props/C07.v) proved for all histories on the store model; model tied to the code by the "
+                          "per-step comparison of changed values and sharing pairs on the cases above")
+    rep.assumptions = ["values are abstract in the model (cells carry stamps); value-dependent branch outcomes (refused?) are inputs of the model taken from the run",
+                       "objects no operation writes after construction (PDDLType, Predicate/GroundedPredicate, PDDLObject and their signature dicts) are values, not cells; the digest oracle still covers them",
+                       "CPython scheduler / GIL / byte-code atomicity are outside the model; real threads are sampled, not enumerated",
+                       "base and `when` groups of generated actions do not interfere (D12/C03 is not C07's business)"]
+    return rep.finish()
